@@ -26,3 +26,30 @@ def classifier(name):
         CLASSIFIERS[name] = f
         return f
     return deco
+
+
+@classifier("always")
+def _always(replay, m):
+    return True
+
+
+@classifier("field_true")
+def _field_true(replay, m):
+    return bool(replay.get(m["field"]))
+
+
+@classifier("field_equals")
+def _field_equals(replay, m):
+    return replay.get(m["field"]) == m["value"]
+
+
+@classifier("field_regex")
+def _field_regex(replay, m):
+    return re.search(m["regex"], str(replay.get(m["field"], ""))) is not None
+
+
+@classifier("keyword_in_unescaped_position")
+def _kw_unescaped(replay, m):
+    """the parse error names a keyword that occurs in one of the positions the generator does not escape"""
+    mm = re.search(r"keyword '(\w+)' used as identifier", replay.get("error", ""))
+    return bool(mm and mm.group(1) in replay.get("unescaped_positions", []))
